@@ -147,10 +147,14 @@ func pubKeyFromDIDKey(didKey string) ([]byte, error) {
 		return nil, errors.New("unknown key encoding")
 	}
 
+	if !isASCII(fingerprint) {
+		return nil, errors.New("unknown key encoding")
+	}
+
 	mc := base58.Decode(fingerprint[1:]) // skip leading "z"
 
 	_, br := binary.Uvarint(mc)
-	if br == 0 {
+	if br <= 0 { // 0: buffer too small, negative: the value overflows 64 bits
 		return nil, errors.New("unknown key encoding")
 	}
 
